@@ -39,7 +39,7 @@ def main():
     table = "\n".join(["| seed | change | needs to manifest | `./check <ID> quick` on the changed tree |", "|---|---|---|---|"] + rows)
     path = os.path.join(VERIF, "DESIGN.md")
     s = open(path).read()
-    s2 = re.sub(r"(<!-- SEED-TABLE-BEGIN -->\n).*?(\n<!-- SEED-TABLE-END -->)", lambda mo: mo.group(1) + table + mo.group(2), s, flags=re.S)
+    s2 = re.sub(r"(<!-- SEED-TABLE-BEGIN -->\n).*?(<!-- SEED-TABLE-END -->)", lambda mo: mo.group(1) + table + "\n" + mo.group(2), s, flags=re.S)
     open(path, "w").write(s2)
     print("%d seeds; %d caught, %d missed, %d pending" % (len(rows), sum("caught" in r for r in rows), sum("MISSED" in r for r in rows),
                                                           sum("not run" in r for r in rows)))
